@@ -628,6 +628,18 @@ def kern(U: Node, use_x=True) -> Static:
     )
 
 
+def kern_indep(U: Node) -> Static:
+    """kernel whose carry does not depend on its choices (the domain of Scan's IndexRequest)"""
+    return Static(
+        f"kern_indep({U.name})",
+        2,
+        [Site("s", U, lambda xp, args, env: (clipp(xp, args[0]),))],
+        lambda xp, args, env: (args[0] + 0.5, num(xp, env["s"]) + (args[1] if args[1] is not None else 0.0)),
+        [],
+        unit=False,
+    )
+
+
 def kern_det() -> Static:
     return Static(
         "kern_det",
